@@ -43,7 +43,10 @@ func (p *Parser) Encode(header *parser.PacketHeader, v any) ([][]byte, error) {
 		return nil, fmt.Errorf("parser/json: invalid argument: %w", errNilArgument)
 	}
 
-	if header.Type == parser.PacketTypeEvent || header.Type == parser.PacketTypeAck {
+	switch header.Type {
+	// A header that was encoded before already carries the binary type (for
+	// example a persisted packet that is sent again): treat it the same way.
+	case parser.PacketTypeEvent, parser.PacketTypeAck, parser.PacketTypeBinaryEvent, parser.PacketTypeBinaryAck:
 		if hasBinary(rv) {
 			switch header.Type {
 			case parser.PacketTypeEvent:
@@ -108,7 +111,15 @@ func (p *Parser) encodeString(header *parser.PacketHeader, v any) ([]byte, error
 
 func (p *Parser) encodeBinary(header *parser.PacketHeader, v any) (buffers [][]byte, err error) {
 	numBuffers := 0
-	buffers, err = p.deconstructPacket(reflect.ValueOf(v), &numBuffers)
+	// Binary values are replaced by placeholders inside v while it is serialized.
+	// Put the original values back afterwards: v belongs to the caller.
+	var undo []func()
+	defer func() {
+		for i := len(undo) - 1; i >= 0; i-- {
+			undo[i]()
+		}
+	}()
+	buffers, err = p.deconstructPacket(reflect.ValueOf(v), &numBuffers, &undo)
 	if err != nil {
 		return nil, err
 	}
